@@ -17,6 +17,7 @@ type Handler interface {
 	End(kind string)
 	Consumer(bus interface{}, name string)
 	Processed(bus interface{}, name string)
+	Emitting(bus interface{})
 	Point(name string, args ...interface{})
 	Observe(name string, args ...interface{})
 }
@@ -79,6 +80,14 @@ func Consumer(bus interface{}, name string) {
 func Processed(bus interface{}, name string) {
 	if h := get(); h != nil {
 		h.Processed(bus, name)
+	}
+}
+
+// Emitting announces that one event is about to be emitted on bus by hooked
+// code whose (single) hooked consumer will call Processed for it.
+func Emitting(bus interface{}) {
+	if h := get(); h != nil {
+		h.Emitting(bus)
 	}
 }
 
